@@ -35,7 +35,7 @@ _o = [
     obl('C13.k2.sphere', _K2, _both('k2d%d_inside') + _both('k2d%d_outside'), ['K2d2', 'K2d3'], B.k2),
     # Kenamond 3
     obl('C13.k3.arrival', _K3, _both('k3d%d_ge') + _both('k3d%d_at_detonator') + _both('k3d%d_ge_straight')
-        + _both('k3d%d_shadow_path_ge_dist'), ['K3d2', 'K3d3'], B.k3),
+        + _both('k3d%d_shadow_path_ge_dist') + _both('k3d%d_gt') + _both('k3d%d_eq_td_iff'), ['K3d2', 'K3d3'], B.k3),
     obl('C13.k3.shadow_boundary', _K3, _both('k3d%d_boundary_dist') + _both('k3d%d_boundary') + _both('k3d%d_continuousOn'),
         ['K3d2', 'K3d3'], B.k3),
     obl('C13.k3.line_of_sight', _K3, _both('k3d%d_los') + _both('k3d%d_lipschitz_partial') + _both('k3d%d_gradient_los'),
@@ -61,7 +61,7 @@ PROP = dict(
           'parameters and all points: K1 t(x_d)=t_d, t>=t_d, t = t_d ONLY at the detonator (strictly later elsewhere), t p <= t q + dist/D, |t p - t q| <= dist/D, eikonal equality along rays, gradient '
           'norm 1/D from the generated certificates; K2 t >= min t_di, t(x_di) <= t_di, t(x_d3) = t_d3, global 1/D2 and '
           'inner 1/D1 Lipschitz bounds, ||p|| <= R -> t = t_d3 + ||p||/D1, continuity across the sphere; K3 t >= t_d, '
-          't(x_d) = t_d, theta = 0 -> ||p - x_d|| = l_da + l_bp (both leaves agree), continuity on the explosive, shadow '
+          't(x_d) = t_d, t = t_d only at the detonator, theta = 0 -> ||p - x_d|| = l_da + l_bp (both leaves agree), continuity on the explosive, shadow '
           'path >= straight distance, gradient norm 1/D strictly inside the line-of-sight region and strictly inside the shadow region off the ray directly behind the obstacle (generated certificates through arccos/sqrt); DSD dt/dr = 1/(D_CJ - alpha/r) per material (radial HasDerivAt and gradient norm '
           'from the log certificates), continuity at r_1 and r_2, t >= t_d, strict monotonicity, |t p - t q| <= dist/(D_CJ - alpha/rho) for two points of one material at radii >= rho, under r_1 > alpha_1/D_1, '
           'r_2 > alpha_2/D_2.  Partial: the 1/D bound of Kenamond 3 when a point is shadowed (bound '
